@@ -1718,6 +1718,12 @@ class Component(System):
             If True, use relevance to determine which partials to approximate.
         """
         subjacs_info = self._subjacs_info
+        # make sure a scheme exists for every declared approximation method: a scheme that was
+        # left empty by an earlier call (made under a relevance for which none of its partials
+        # mattered) has been deleted below, and its partials would never be approximated again.
+        for meta in subjacs_info.values():
+            if _supported_methods.get(meta.get('method')) is not None:
+                self._get_approx_scheme(meta['method'])
         wrtset = set()
         subjac_keys = self._get_approx_subjac_keys(use_relevance=use_relevance, initialize=True)
         methods = list(self._approx_schemes)
